@@ -172,6 +172,8 @@ def main(argv=None):
     viols = {}      # sig -> list of (case, detail)
     incon = []
     ran = 0
+    slow = sorted(((r.get('_t', 0), c) for c, r in zip(cases, results) if r is not None),
+                  key=lambda x: -x[0])[:5]
     for c, r in zip(cases, results):
         if r is None:
             continue
@@ -250,6 +252,7 @@ def main(argv=None):
                 'inconclusive_cases': len(incon),
                 'inconclusive_examples': [x['why'][:300] for x in incon[:3]],
                 'observed': counters,
+                'slowest_cases': [{'seconds': t, 'case': c} for t, c in slow],
                 'known_findings_reobserved': sorted(s for s in viols if s in known_sigs),
                 'trusted_base': getattr(mod, 'TRUSTED', []),
                 'exhaustive': False,
@@ -270,6 +273,9 @@ def main(argv=None):
           '%d violation mechanisms (%d listed), %d inconclusive cases, %.1fs'
           % (pid, tier, a.seed, ran, len(cases), evals, len(nontriv), len(viols),
              len(viols) - len(unlisted), len(incon), wall))
+    if os.environ.get('VERIF_SHOW_SLOW'):
+        for t, c in slow:
+            print('  slow %.1fs %s' % (t, json.dumps(c)))
     if a.replay:
         for c, r in zip(cases, results):
             print(json.dumps(r, indent=1, default=str)[:4000])
